@@ -732,6 +732,9 @@ func sliceVals(v Value) []Value {
 
 func (ex *Exec) strBinopAdd(a, b Value) Value {
 	if isOpaque(a) || isOpaque(b) {
+		if r, ok := ex.tmplConcat(a, b); ok {
+			return r
+		}
 		return opaqueStr
 	}
 	as, aok := a.(string)
